@@ -183,4 +183,78 @@ theorem findMPtr_spec (k : Int) (t : Tree) : findMPtr k none t = (Tree.findMIdx 
   simp only [List.nil_append, List.append_nil, List.length_nil] at this
   rw [this]; rfl
 
+/-- the `next` links from pointer `p` spell out the entries `es` (ids and keys) and end in the sentinel `endItem` -/
+def NextRepr (h : Heap) : Nat → List (Nat × Int × Int) → Prop
+  | p, [] => p = h.endItem
+  | p, e :: es => p = e.1 + 1 ∧ p ≠ h.endItem ∧ h.key p = e.2.1 ∧ NextRepr h (h.next p) es
+
+theorem count_loop_eq (h : Heap) (k : Int) : ∀ (es : List (Nat × Int × Int)) (p c n fuel it : Nat),
+    NextRepr h p es → es.length < fuel →
+    Multi.count_loop fuel h c k it n p = some (n + (countWalk k es).1, c + (countWalk k es).2) := by
+  intro es
+  induction es with
+  | nil =>
+    intro p c n fuel it hr hf
+    have : p = h.endItem := hr
+    cases fuel with
+    | zero => simp at hf
+    | succ f => rw [Multi.count_loop]; simp [this, countWalk]
+  | cons e es ih =>
+    intro p c n fuel it hr hf
+    obtain ⟨i, k', v'⟩ := e
+    obtain ⟨e1, e2, e3, e4⟩ := hr
+    cases fuel with
+    | zero => simp at hf
+    | succ f =>
+      simp only [List.length_cons] at hf
+      rw [Multi.count_loop]
+      simp only [e2, ne_eq, not_false_eq_true, if_true, e3, countWalk]
+      by_cases hk : k' = k
+      · simp only [hk, if_true]
+        rw [ih _ _ _ f it e4 (by omega)]
+        simp only [Option.some.injEq, Prod.mk.injEq]
+        constructor <;> omega
+      · simp only [hk, if_false]
+        rfl
+
+theorem nextRepr_drop (h : Heap) : ∀ (es : List (Nat × Int × Int)) (first p : Nat) (e : Nat × Int × Int),
+    NextRepr h first es → es[p]? = some e → e.1 + 1 ≠ h.endItem ∧ NextRepr h (h.next (e.1 + 1)) (es.drop (p + 1)) := by
+  intro es
+  induction es with
+  | nil => intro first p e _ hp; simp at hp
+  | cons x xs ih =>
+    intro first p e hr hp
+    obtain ⟨e1, e2, e3, e4⟩ := hr
+    cases p with
+    | zero =>
+      simp only [List.getElem?_cons_zero, Option.some.injEq] at hp
+      subst hp
+      rw [← e1]
+      exact ⟨e2, by simpa using e4⟩
+    | succ q =>
+      simp only [List.getElem?_cons_succ] at hp
+      simpa using ih _ q e e4 hp
+
+theorem findMLoop_bound (k : Int) : ∀ (t : Tree) (res : Option Nat) (off p : Nat),
+    Tree.findMLoop k res off t = some p → res = some p ∨ (off ≤ p ∧ p < off + t.size) := by
+  intro t
+  induction t with
+  | nil => intro res off p h; left; exact h
+  | node i k' v hh s l r ihl ihr =>
+    intro res off p h
+    simp only [Tree.findMLoop] at h
+    simp only [Tree.size]
+    by_cases h1 : k > k'
+    · simp only [h1, if_true] at h
+      rcases ihr _ _ _ h with e | e
+      · left; exact e
+      · right; omega
+    · simp only [h1, if_false] at h
+      rcases ihl _ _ _ h with e | e
+      · by_cases h2 : k < k'
+        · simp only [h2, if_true] at e; left; exact e
+        · simp only [h2, if_false, Option.some.injEq] at e; right; omega
+      · right; omega
+
+
 end Nstd.Avl
